@@ -1,0 +1,23 @@
+//go:build verif
+
+// Contracts for package persistence, read by the verification-condition generator
+// in /verif (govc). Comments only; compiled only with the build tag "verif".
+
+package persistence
+
+// The persister is told about machine changes after they happened; it is assumed not to modify the machine it is shown
+// (no modifies clause) and may fail arbitrarily.
+//@ interface Persister
+//@   method ChannelCreated
+//@     requires recv != nil
+//@   method ChannelRemoved
+//@     requires recv != nil
+//@   method Staged
+//@     requires recv != nil
+//@   method SigAdded
+//@     requires recv != nil
+//@   method Enabled
+//@     requires recv != nil
+//@   method PhaseChanged
+//@     requires recv != nil
+//@ end
